@@ -40,6 +40,7 @@ def run(ctx):
     lib_py.kw_forward(ctx, py, mods=("trees", "stats"), only=ps)
     lib_py.unused_params(ctx, py, mods=("trees", "stats"), only=ps)
     lib_kind.py_lints(ctx, py, mods=("trees", "stats"), only=ps)
+    lib_kind.py_windows_parity(ctx, py, [("trees", "TreeSequence.genetic_relatedness_matrix")])
     lib_py.ll_positional(ctx, py, P, only=ps)
     lib_module.name_agreement(ctx, P, classes=("TreeSequence", "LdCalculator"), floor=60)
     lib_py.facade_names(ctx, py, P, classes=(("trees", "TreeSequence"),), floor=90,
